@@ -14,7 +14,9 @@ RULE = ("generated CML documents of the Avogadro flavour written as REAL XML fil
         "with repeated bonds; coordinates of any sign and magnitude (0, ±tiny, ±huge, dyadic, random) written with repr; "
         "layout variations (XML declaration, extra attributes, attribute order, wrapping <cml> element, indentation). "
         "Each file is loaded by Atoms.load(path), Atoms.load(pathlib.Path), Atoms.load(open file, filetype='cml') and "
-        "Atoms.load_cml(path); a RELOAD stream writes consecutive different documents to ONE reused path and loads it again "
+        "Atoms.load_cml(path), and with every keyword of the loaders at non-default values (verbose=True/False by keyword and "
+        "positionally, explicit filetype='cml' on a path with another extension, load_cml(f=…), load_cml(open file)) — all "
+        "results must be identical; a RELOAD stream writes consecutive different documents to ONE reused path and loads it again "
         "(str and pathlib.Path), every other time after modifying the previously returned Atoms in place (positions += 1), "
         "and compares each load with the document and with the open-file load; a separate malformed stream has unknown references / unknown elements / no atoms / "
         "repeated ids. Non-trivial = distinct well-formed document that has no bond at all, or has a bond one of "
@@ -172,17 +174,35 @@ def real_loads(doc, tmpdir, name):
     path = os.path.join(tmpdir, name + ".cml")
     with open(path, "w", encoding="utf-8") as f:
         f.write(xml_of(doc))
+    other = os.path.join(tmpdir, name + ".xml")       # same text under a name whose extension says nothing
+    with open(other, "w", encoding="utf-8") as f:
+        f.write(xml_of(doc))
     try:
         res = {"path": _res(lambda: Atoms.load(path)),
                "pathlib": _res(lambda: Atoms.load(pathlib.Path(path))),
                "load_cml": _res(lambda: Atoms.load_cml(path))}
 
-        def by_file():
+        def by_file(**kw):
             with open(path, "r", encoding="utf-8") as fh:
-                return Atoms.load(fh, filetype="cml")
+                return Atoms.load(fh, filetype="cml", **kw)
         res["file"] = _res(by_file)
+        # every keyword of the loaders at non-default values (the debug output goes to the silenced stdout)
+        res["path verbose=True"] = _res(lambda: Atoms.load(path, verbose=True))
+        res["path verbose=False"] = _res(lambda: Atoms.load(path, verbose=False))
+        res["path filetype='cml'"] = _res(lambda: Atoms.load(other, filetype="cml"))
+        res["path filetype='cml' verbose=True"] = _res(lambda: Atoms.load(pathlib.Path(other), "cml", verbose=True))
+        res["load_cml verbose=True"] = _res(lambda: Atoms.load_cml(path, verbose=True))
+        res["load_cml positional True"] = _res(lambda: Atoms.load_cml(pathlib.Path(path), True))
+        res["load_cml f= verbose=False"] = _res(lambda: Atoms.load_cml(f=path, verbose=False))
+        res["file verbose=True"] = _res(lambda: by_file(verbose=True))
+
+        def by_file_direct():
+            with open(path, "r", encoding="utf-8") as fh:
+                return Atoms.load_cml(fh, verbose=True)
+        res["load_cml(open file) verbose=True"] = _res(by_file_direct)
     finally:
         os.remove(path)
+        os.remove(other)
     return res
 
 
@@ -207,6 +227,7 @@ def real_reload(doc, path, mutate):
         with core.quiet():
             kept[0].positions += np.array([1.0, 1.0, 1.0])
     res["path-again"] = _res(lambda: Atoms.load(path))
+    res["path-again verbose=True"] = _res(lambda: Atoms.load(path, verbose=True))
     res["pathlib"] = _res(lambda: Atoms.load(pathlib.Path(path)))
     res["load_cml"] = _res(lambda: Atoms.load_cml(path))
 
@@ -332,7 +353,7 @@ def run(ctx, oracle_only=False):
             ctx.count("malformed-outcome:" + ("loaded" if "ok" in res["path"] else res["path"]["err"]))
             inp = dict(wire(doc), bonds=doc["bonds"], malformed=kind)
             ctx.case(inp, nontrivial=False)
-            for way in ("pathlib", "file", "load_cml"):
+            for way in res:
                 if res[way] != res["path"]:
                     ctx.fail("loading by %s differs from loading by path" % way, inp, observed=str(res[way])[:300])
             ops.append(wire(doc))
@@ -370,5 +391,5 @@ def replay(ctx, rec):
         else:
             res = real_loads(doc, tmp, "replay")
     if inp.get("malformed") or doc["bond_idx"] is None:
-        return all(res[w] == res["path"] for w in ("pathlib", "file", "load_cml"))
+        return all(res[w] == res["path"] for w in res)
     return oracle(doc, res) is None
